@@ -210,6 +210,7 @@ impl Peer {
 pub fn run(cases: &[Value], trace: &mut Trace, seed: u64) {
     for (k, case) in cases.iter().enumerate() {
         let mut rng = Rng::new(seed ^ (k as u64).wrapping_mul(0x5555_1234));
+        let watch = FdWatch::start();
         let (fsock, psock) = UnixStream::pair().unwrap();
         let fe = Frontend::from_stream(fsock, MAXQ);
         let mut peer = Peer {
@@ -304,5 +305,8 @@ pub fn run(cases: &[Value], trace: &mut Trace, seed: u64) {
                 break;
             }
         }
+        drop(fe);
+        drop(peer);
+        trace.emit(watch.finish());
     }
 }
